@@ -520,12 +520,6 @@ void h_for_each_l0(void) {
   CANARY();
 }
 /* quick variants with smaller bounds */
-void h_for_each_l0_q(void) {
-  IN_SIZE(in_n0);
-  ASSUME(in_n0 <= 2);
-  for_each_common(in_n0, 0, 0, 0, 0, 0, 0);
-  CANARY();
-}
 void h_for_each_levels_q(void) {
   IN_SIZE(in_n1); IN_SIZE(in_n6);
   for_each_common(0, in_n1, 0, 0, 0, 0, in_n6);
@@ -880,12 +874,5 @@ __CPROVER_ensures(__CPROVER_return_value == (g_num[0][0] > g_num[0][1] ? -1 : g_
 void h_newest_first(void) {
   mk_version(); mk_level(0, 2);
   newest_first(g_fmp[0][0], g_fmp[0][1]);
-  CANARY();
-}
-/* level 0 with at most one file (range filter, callback, stop), then one level-1 candidate */
-void h_for_each_l0_one(void) {
-  IN_SIZE(in_n0); IN_SIZE(in_n1);
-  ASSUME(in_n0 <= 1 && in_n1 <= 1);
-  for_each_common(in_n0, in_n1, 0, 0, 0, 0, 0);
   CANARY();
 }
